@@ -11,6 +11,7 @@ Theorem lint_on_rendered_closed :
   forall (NM : Num) (w : world) (file : bytes) (f : Syntax.file) (silent : bool),
   wf_file NM f = true -> short_lines f ->
   file <> [] ->
+  file <> dev_null ->
   lookup file (w_fs w) = Some (FFile (render f)) ->
   lookup file (w_read_fault w) = None ->
   w_sink w = None ->
@@ -20,7 +21,7 @@ Theorem lint_on_rendered_closed :
                          then b "No errors found" ++ [c_lf] else []);
        out_status := Ok |}.
 Proof.
-  intros NM w file f silent Hwf Hs Hne Hfs Hrf Hsink.
+  intros NM w file f silent Hwf Hs Hne Hnd Hfs Hrf Hsink.
   apply (lint_on_rendered NM short_lines (parse_render_roundtrip NM)); try assumption.
   unfold readable. apply (short_lines_exact NM f Hwf). exact Hs.
 Qed.
@@ -60,6 +61,7 @@ Proof.
   - vm_compute. reflexivity.
   - apply (short_lines_exact ZNum f6 Hwf). vm_compute. reflexivity.
   - discriminate.
+  - intro H; vm_compute in H; discriminate H.
   - reflexivity.
   - reflexivity.
   - reflexivity.
